@@ -8,7 +8,7 @@ META = {
     "level": "exploration",
     "rule": ("a real logged-on connection (both roles) is fed one frame at a time by a scripted adversarial peer; alphabet relative to the "
              "connection's own expected number E: type in {app, Heartbeat, TestRequest, ResendRequest(once, benign), GapFill, Reset} x "
-             "MsgSeqNum in {E-1,E,E+1,E+4} x PossDupFlag x NewSeqNo in {s+1,s+3,E-1}; start states ACTIVE, RESENDREQ_AWAITING via a real gap, "
+             "MsgSeqNum in {E-1,E,E+1,E+4} x PossDupFlag x NewSeqNo in {s+1,s+3,E-1}; start states ACTIVE, RESENDREQ_AWAITING via a real gap, ACTIVE with an application handler that raises, "
              "and after a too-high Logon; exhaustive over all histories of length 3 (quick) / 4 (thorough) of a 24-symbol alphabet plus random "
              "histories of length 6-14 over 40 symbols; after every frame the monitor checks R1 delivery only at E and once, R2 E moves by +1 / "
              "to an honoured forward NewSeqNo / never backwards / a delivered number is consumed, R3 exactly one ResendRequest(BeginSeqNo=E) "
@@ -29,7 +29,7 @@ A24 = ([("app", r, pd, None) for r in (-1, 0, 1, 4) for pd in ("N", "Y")] +
 A40 = A24 + ([("hb", r, pd, None) for r in (-1, 4) for pd in ("N", "Y")] + [("tr", -1, "N", None), ("tr", 4, "N", None)] +
              [("gf", r, "N", n) for r in (0, 1) for n in ("s+1", "s+3")] + [("gf", 0, "Y", "E-1"), ("gf", 4, "Y", "s+3")] +
              [("rs", -1, "N", "s+3"), ("rs", 4, "N", "s+3"), ("rs", 0, "Y", "s+1"), ("app", 2, "N", None)])
-STARTS = ["active", "awaiting", "logon-too-high"]
+STARTS = ["active", "awaiting", "active-handler-raises", "logon-too-high"]
 
 
 def plan(tier, seed):
@@ -68,6 +68,12 @@ async def run_history(acc, clock, role, start, syms, cid):
     try:
         if role == "initiator":
             await ep.send_msg(FIXMessage("A", {98: 0, 108: 30}))
+        if start == "active-handler-raises":
+            # the application's on_message raises on every message (after the harness recorded the delivery): the library logs it;
+            # the message was handed over, so it must count as consumed like any other
+            async def boom(msg):
+                raise RuntimeError("application handler failed")
+            ep.vf_hooks["on_message"] = boom
         if start == "logon-too-high":
             await feed(peer.logon(seq=4))
             if ep.connection_state != ConnectionState.RESENDREQ_AWAITING:
@@ -247,7 +253,7 @@ def run_shard(spec, acc):
 
     async def go(clock):
         idx = 0
-        for start in STARTS[:2] if spec["exh_len"] <= 3 else STARTS:
+        for start in STARTS[:3] if spec["exh_len"] <= 3 else STARTS:
             for syms in itertools.product(range(len(A24)), repeat=spec["exh_len"]):
                 idx += 1
                 if idx % nsh != shard:
